@@ -5,6 +5,7 @@ import SaphyrModel.Props.C17
 import SaphyrModel.Proofs.Counting
 import SaphyrModel.Proofs.BlockFold
 import SaphyrModel.Props.C04
+import SaphyrModel.Sc.MI.TokSpan
 /-! # C12 — Reported positions are true positions
 
 **Parser half, proved for every token list** (`event_spans_are_token_spans` and its corollaries): the
@@ -317,5 +318,23 @@ theorem plain_scalar_span_covers_text (pre v rest : Str) (hv : PlainLine v) (u :
   · rw [show pre.length + v.length - pre.length = v.length by omega]
     simp
   · simp only [List.length_append]; omega
+
+/-- **The scanner's index never decreases — for every input, back-end and state.** Whatever the state a call of
+    `next_token` (and of every scanner function below it: the invariant `MI` is proved for each of them,
+    `Sc/MI/*.lean`) starts from, if it returns normally the index of the scanner's mark is at least what it was. -/
+theorem scanner_index_never_decreases (s : Sc) (r : Option Token) (s' : Sc) (h : nextToken s = .ok (r, s')) :
+    s.mark.index ≤ s'.mark.index :=
+  MI.nextToken.out s r s' h
+
+/-- **Each span starts no later than it ends** — for the tokens of single- and double-quoted scalars, literal and
+    folded block scalars, anchors and aliases, from every scanner state, on every back-end, whatever the input:
+    the start mark is taken before anything is consumed, the end mark after, and the index only grows in between. -/
+theorem scalar_token_spans_ordered (s : Sc) (tok : Token) (s' : Sc) :
+    (∀ single, scanFlowScalar single s = .ok (tok, s') → tok.span.start.index ≤ tok.span.stop.index) ∧
+    (∀ lit, scanBlockScalar lit s = .ok (tok, s') → tok.span.start.index ≤ tok.span.stop.index) ∧
+    (∀ alias, scanAnchor alias s = .ok (tok, s') → tok.span.start.index ≤ tok.span.stop.index) :=
+  ⟨fun single h => (TS.scanFlowScalar single 0).out s tok s' (Nat.zero_le _) h,
+   fun lit h => (TS.scanBlockScalar lit 0).out s tok s' (Nat.zero_le _) h,
+   fun alias h => (TS.scanAnchor alias 0).out s tok s' (Nat.zero_le _) h⟩
 
 end SaphyrModel.C12
